@@ -15,8 +15,7 @@ INFO = {
     'bounds': {'quick': 'texts obtained from 6 templates (16-45 characters) by REPLACING one character, or INSERTING one character, at every position, by an arbitrary Unicode code point 0..0x10FFFF '
                         '(solver variable); interval bounds of every bounded operator as arbitrary non-negative rationals with every unit combination',
                'thorough': '12 templates, two arbitrary characters at every adjacent pair and a seeded sample of distant pairs'},
-    'outside': 'texts further than two characters from a template (in particular: long texts, deep nesting - termination is observed per explored path only, under a wall cap); the last character of the text '
-               '(rtamt appends a ";" after a concrete comparison); module imports and ROS annotations; code points whose text is read by rtamt are enumerated by forks for ASCII and represented by the '
+    'outside': 'texts further than two characters from a template (in particular: long texts, deep nesting - termination is observed per explored path only, under a wall cap); module imports and ROS annotations; code points whose text is read by rtamt are enumerated by forks for ASCII and represented by the '
                'smallest member of their lexer class beyond ASCII',
     'assumptions': ['"derivable from the grammar" = the text, after the documented appending of a missing trailing ";", is lexed completely by the token rules of LtlLexer.g4 (longest match, first rule wins) '
                     'into a token sequence that StlParser.g4/LtlParser.g4 derive from specification_file',
@@ -78,6 +77,7 @@ def _make_stream_class():
     return SymInputStream
 
 
+EDGE_CHARS = [ord(ch) for ch in ';\n \t\r']
 LITERAL_CHARS = [ord(ch) for ch in '0123456789.eExXbB_+-abcdfACDF']
 CLASSES = [(48, 57), (97, 122), (65, 90), (0, 127), (128, 0x10FFFF)]
 
@@ -324,17 +324,31 @@ def h_chars(template, k, kind='dt', decl=('a', 'b'), consts=()):
             for c in cs:
                 env.assume(z3.And(z3.IsInt(c.r), c.r >= 0, c.r <= 0x10FFFF))
             s = _spec(kind, decl, consts)
-            s.spec = template
+            # rtamt handles the text as a str before it reaches the lexer (it appends the omitted trailing ';'); a placeholder is not
+            # the character it stands for, so the characters such string operations look at - ';' and white space at either end of the
+            # text - are decided by forks BEFORE parse() and written into the text; a placeholder left there stands for any other character
+            tmpl = template
+            L = len(tmpl)
+            for p_, ch in enumerate(template):
+                j = ord(ch) - PH0
+                if 0 <= j < k and (p_ == 0 or p_ >= L - 2):
+                    for v in EDGE_CHARS:
+                        if cs[j] == v:
+                            tmpl = tmpl[:p_] + chr(v) + tmpl[p_ + 1:]
+                            break
+            s.spec = tmpl
             with _Stubs():
                 _CUR['syms'] = cs
-                _CUR['names'] = sorted(set(decl) | set(cdict) | set(_words(template)))
+                _CUR['names'] = sorted(set(decl) | set(cdict) | set(_words(tmpl)))
                 out = _outcome(s)
                 st = _CUR['stream']
-                data = list(st.data) if st is not None else None
-            if data is None:                        # parse() gave up before building the input stream
-                data = [cs[ord(ch) - PH0] if 0 <= ord(ch) - PH0 < k else ord(ch) for ch in template]
-                if not data or not (data[-1] == ord(';')):
-                    data = data + [ord(';')]
+                seen = list(st.data) if st is not None else None
+            # the oracle judges the text the USER wrote (plus the ';' that may be omitted), not what parse() made of it
+            data = [cs[ord(ch) - PH0] if 0 <= ord(ch) - PH0 < k else ord(ch) for ch in tmpl]
+            if not tmpl.endswith(';'):
+                data = data + [ord(';')]
+            if seen is not None and len(seen) == len(data) and all(isinstance(a_, symx.Sym) or a_ == b_ for a_, b_ in zip(data, seen)):
+                data = seen                         # same text: keep the characters already made concrete by forks
         else:
             codes = [int(c) for c in cs]
             text = ''.join(chr(codes[ord(ch) - PH0]) if 0 <= ord(ch) - PH0 < k else ch for ch in template)
@@ -475,19 +489,24 @@ def obligations(tier, rng):
     for ti, (kind, t, consts) in enumerate(temps):
         L = len(t)
         for mode in ('r', 'i'):
-            for i in range(L - 1 if mode == 'r' else L):          # never the last character (see INFO.outside)
-                if quick and ((mode == 'i' and i % 3 != ti % 3) or (ti in (2, 4) and i % 2 != (0 if mode == 'r' else 1))):
+            for i in range(L if mode == 'r' else L + 1):          # including the last character and a character appended at the end
+                if quick and i < L - 1 and ((mode == 'i' and i % 3 != ti % 3) or (ti in (2, 4) and i % 2 != (0 if mode == 'r' else 1))):
                     continue                                      # quick: every replacement (every other one on two templates), a third of the insertions
                 out.append(ob('C14', 'chars', 'char1/%s/T%d/%s@%d/%r' % (kind, ti, mode, i, t), template=_mark(t, i, mode), k=1, kind=kind, consts=[list(c) for c in consts],
                               max_paths=4000, wall=600, validate=1))
     # degenerate texts (no arbitrary character at all: the k = 0 members of the family)
     for t in ['', ' ', ';', '\n', ';;', '// c', '/* c */']:
         out.append(ob('C14', 'chars', 'char0/dt/%r' % t, template=t, k=0, kind='dt', validate=0))
+    # concrete endings of every template: exactly one ';' may close an assertion
+    for ti, (kind, t, consts) in enumerate(temps):
+        base = t[:-1] if t.endswith(';') else t
+        for tail in [';', ';;', '; ;', ';\n', '\n;', ' ;\n;\n', ';;;', ' ', '\n', ';\t']:
+            out.append(ob('C14', 'chars', 'tail/%s/T%d/%r' % (kind, ti, tail), template=base + tail, k=0, kind=kind, consts=[list(c) for c in consts], validate=0))
     # two arbitrary characters next to each other
     if not quick:                 # 2-4 minutes per pair: thorough tier only
         for ti, (kind, t, consts) in enumerate(temps):
             L = len(t)
-            for i in range(L - 2):
+            for i in range(L - 1):
                 out.append(ob('C14', 'chars', 'char2/%s/T%d/r@%d/%r' % (kind, ti, i, t), template=_mark(t, i, 'r', 2), k=2, kind=kind, consts=[list(c) for c in consts],
                               max_paths=60000, wall=1500, validate=1))
     if not quick:
